@@ -12,7 +12,7 @@ import numpy as np
 from core import Driver, Failure, nl
 
 ID = "C13"
-PROOF_MODULES = ["PyribsProofs.C13"]
+PROOF_MODULES = ["PyribsProofs.C13", "PyribsProofs.C13b"]
 THEOREMS = [
     "Pyribs.C13.wf_run",
     "Pyribs.C13.wf_add",
@@ -37,6 +37,14 @@ THEOREMS = [
     "Pyribs.C13.add_invalidates",
     "Pyribs.C13.clear_invalidates",
     "Pyribs.C13.nonvacuous",
+    "Pyribs.C13b.abs_keys",
+    "Pyribs.C13b.abs_rawAdd",
+    "Pyribs.C13b.abs_rawAdd_rejected",
+    "Pyribs.C13b.abs_clear",
+    "Pyribs.C13b.abs_resize",
+    "Pyribs.C13b.refinement_step",
+    "Pyribs.C13b.refinement",
+    "Pyribs.C13b.nonvacuous",
 ]
 RULE = ("random histories of add (random index lists with repeats, random transform chains, out-of-range "
         "and malformed adds), clear, resize (legal/illegal), retrieve (random index lists, field selections, "
